@@ -450,21 +450,22 @@ func (f *Frame) applyContract(x ssa.Value, fc *FuncContract, fn *ssa.Function, k
 		}
 	}
 	guard := and(f.guard(), reqAll)
-	// a pure function whose contract promises a fresh result: the promise is used
-	// only for the first application of this exact term (two applications denote
-	// the same term, and one object cannot be fresh twice)
+	// a pure function whose contract promises a fresh result is modelled as memoising: two calls
+	// with the same arguments in the same state denote the same term, so the result is either new
+	// or the result of such an earlier call (ghost set ponce). A result handed out twice is marked
+	// shared (ghost set pshared) and may not be written (memo[...] obligations) -- without writes the
+	// memoising program cannot be told from the real one.
 	skipFresh := false
-	if fc.Pure && len(vals) > 0 {
-		appKey := vals[0].T
-		if e.freshApplied == nil {
-			e.freshApplied = map[string]bool{}
-		}
-		full := e.pureUF(key, 0, args, rts[0], st.tok)
-		appKey = full
-		if e.freshApplied[appKey] {
-			skipFresh = true
-		}
-		e.freshApplied[appKey] = true
+	memo := fc.Pure && fc.freshResults() != nil
+	var preShared, preAllocT string
+	mk := memoKeyOf(fc)
+	once := memo && e.memoCount[mk] == 1 // the only site, executed at most once: the result is new
+	if once {
+		memo = false
+	}
+	if memo {
+		preShared, preAllocT = e.memoHeap(pre, "pshared"), e.allocArr(pre)
+		post.memoFresh = &memoInfo{key: mk, args: args, tok: pre.tok}
 	}
 	mentionsFresh := false
 	for _, en := range fc.Ensures {
@@ -489,6 +490,41 @@ func (f *Frame) applyContract(x ssa.Value, fc *FuncContract, fn *ssa.Function, k
 			f.allocResult(st, v)
 		}
 		e.assumeTypeInv(st, v.T, v.Typ, f.guard())
+	}
+	if once {
+		for i, n := range names {
+			if fc.freshResults()[n] && i < len(vals) {
+				if r := refOf(vals[i].T, vals[i].Typ); r != "" {
+					c.assert(implies(guard, or(eq(r, "nil"), c.memoBorn(r))))
+					if e.memoUsed {
+						c.assert(implies(guard, not(sel(e.memoHeap(pre, "pshared"), r))))
+					}
+				}
+			}
+		}
+	}
+	if memo {
+		for i, n := range names {
+			if !fc.freshResults()[n] || i >= len(vals) {
+				continue
+			}
+			r := refOf(vals[i].T, vals[i].Typ)
+			if r == "" {
+				continue
+			}
+			c.assert(implies(guard, or(eq(r, "nil"), c.memoBorn(r))))
+			c.assert(implies(guard, or(eq(r, "nil"), eq("(rtag "+r+")", c.rtagID(c.refHeap(vals[i].Typ))))))
+			once, shared := e.memoHeap(st, "ponce$"+mk), e.memoHeap(st, "pshared")
+			e.heapSet(st, "pshared", "(Array Ref Bool)", store(shared, r, and(not(eq(r, "nil")), or(sel(preShared, r), sel(preAllocT, r)))))
+			e.heapSet(st, "ponce$"+mk, "(Array Ref Bool)", store(once, r, "true"))
+			ts := "(Array Ref " + sortTok + ")"
+			e.heapSet(st, "pbt$"+mk, ts, store(e.heapGet(st, "pbt$"+mk, ts), r, pre.tok))
+			for j, a := range args {
+				as := "(Array Ref " + c.sortOf(a.Typ) + ")"
+				n := fmt.Sprintf("pba$%s$%d", mk, j)
+				e.heapSet(st, n, as, store(e.heapGet(st, n, as), r, a.T))
+			}
+		}
 	}
 	if call, ok := x.(*ssa.Call); ok && (mentionsFresh || (!fc.Pure && fc.freshResults() != nil)) && !skipFresh {
 		fr := map[int]bool{}
@@ -571,7 +607,7 @@ func (f *Frame) havocModifies(m *Expr, env *Env, st *State) error {
 		pt := g.Type().Underlying().(*types.Pointer)
 		n, s := c.cellHeap(pt.Elem())
 		e.heapSet(st, n, s, store(e.heapGet(st, n, s), gv.T, c.freshConst("havoc.cell", c.sortOf(pt.Elem()))))
-		f.frameObl(gv.T, "call modifies global("+m.Args[1].String()+")", f.curInstr)
+		f.frameObl(gv.T, "call modifies global("+m.Args[1].String()+")", f.curInstr, n)
 		return nil
 	}
 	v, err := env.eval(m.Args[1])
@@ -589,7 +625,7 @@ func (f *Frame) havocModifies(m *Expr, env *Env, st *State) error {
 		e.heapSet(st, hn, hs, store(h, v.T, c.freshConst("havoc.keys", fmt.Sprintf("(Array %s Bool)", c.sortOf(mt.Key())))))
 		hv := e.heapGet(st, vn, vs)
 		e.heapSet(st, vn, vs, store(hv, v.T, c.freshConst("havoc.vals", fmt.Sprintf("(Array %s %s)", c.sortOf(mt.Key()), c.sortOf(mt.Elem())))))
-		f.frameObl(v.T, "call modifies mapcontent("+m.Args[1].String()+")", f.curInstr)
+		f.frameObl(v.T, "call modifies mapcontent("+m.Args[1].String()+")", f.curInstr, hn)
 	case "deref":
 		pt, ok := v.Typ.Underlying().(*types.Pointer)
 		if !ok {
@@ -597,7 +633,7 @@ func (f *Frame) havocModifies(m *Expr, env *Env, st *State) error {
 		}
 		n, s := c.cellHeap(pt.Elem())
 		e.heapSet(st, n, s, store(e.heapGet(st, n, s), v.T, c.freshConst("havoc.cell", c.sortOf(pt.Elem()))))
-		f.frameObl(v.T, "call modifies deref("+m.Args[1].String()+")", f.curInstr)
+		f.frameObl(v.T, "call modifies deref("+m.Args[1].String()+")", f.curInstr, n)
 	case "elems":
 		sl, ok := v.Typ.Underlying().(*types.Slice)
 		if !ok {
@@ -605,7 +641,7 @@ func (f *Frame) havocModifies(m *Expr, env *Env, st *State) error {
 		}
 		n, s := c.elemHeap(sl.Elem())
 		e.heapSet(st, n, s, store(e.heapGet(st, n, s), "(s.arr "+v.T+")", c.freshConst("havoc.elems", fmt.Sprintf("(Array (_ BitVec 64) %s)", c.sortOf(sl.Elem())))))
-		f.frameObl("(s.arr "+v.T+")", "call modifies elems("+m.Args[1].String()+")", f.curInstr)
+		f.frameObl("(s.arr "+v.T+")", "call modifies elems("+m.Args[1].String()+")", f.curInstr, c.refHeap(v.Typ))
 	default:
 		return fmt.Errorf("unsupported modifies form %s", m)
 	}
@@ -617,6 +653,7 @@ func (f *Frame) inlineCall(x ssa.Value, fn *ssa.Function, args []*Val, bindings 
 	e.inlineSeq++
 	callee := e.newFrame(fn, f, fmt.Sprintf("%s>%s", f.prefix, fn.Name()))
 	callee.contract = e.prog.contractFor(fn)
+	callee.callSite = f.curInstr
 	if len(args) != len(fn.Params) {
 		panic(fmt.Sprintf("inline %s: %d args for %d params", fn, len(args), len(fn.Params)))
 	}
@@ -740,7 +777,7 @@ func (f *Frame) noteRawWrite(st *State, base, what string, target ssa.Value) {
 	if !fresh {
 		f.enc.bumpTok(st)
 	}
-	f.frameObl(base, what, f.curInstr)
+	f.frameObl(base, what, f.curInstr, f.enc.ctx.refHeap(target.Type()))
 	f.ownObl(base, what, f.curInstr, false)
 }
 
@@ -773,6 +810,7 @@ func (f *Frame) encodeAppend(x ssa.Value, cc *ssa.CallCommon, st *State) {
 	if al != "alloc!0" {
 		c.assert(fmt.Sprintf("(not (select alloc!0 %s))", fr))
 	}
+	e.notShared(st, fr)
 	e.heapSet(st, "alloc", "(Array Ref Bool)", store(al, fr, "true"))
 	newCap := c.freshConst("app.cap", sortBV64)
 	c.assert(and("(bvsle "+newLen+" "+newCap+")", "(bvslt "+newCap+" #x0000100000000000)"))
@@ -874,4 +912,79 @@ func (fc *FuncContract) hides(calleeKey, label string) bool {
 		}
 	}
 	return false
+}
+
+// memoSites counts, per memoising function (a pure function whose contract promises a fresh
+// result), the call sites the verified unit can execute -- through helpers that are inlined, with a
+// site inside a loop or a closure counted as many. A function with one site is called at most once
+// per activation, so its result is simply new; only the others need the memoisation ghost state.
+func (p *Program) memoSites(fn *ssa.Function, inLoop bool, stack map[*ssa.Function]bool, depth int, out map[string]int) {
+	if fn == nil || stack[fn] || depth > 8 {
+		return
+	}
+	stack[fn] = true
+	defer delete(stack, fn)
+	cyc := blocksOnCycles(fn)
+	for _, b := range fn.Blocks {
+		many := inLoop || cyc[b]
+		for _, ins := range b.Instrs {
+			ci, ok := ins.(ssa.CallInstruction)
+			if !ok {
+				continue
+			}
+			cc := ci.Common()
+			note := func(fc *FuncContract) {
+				if fc != nil && fc.Pure && fc.freshResults() != nil {
+					out[memoKeyOf(fc)]++
+					if many {
+						out[memoKeyOf(fc)]++
+					}
+				}
+			}
+			if callee := cc.StaticCallee(); callee != nil {
+				if fc := p.contractFor(callee); fc != nil && !fc.inlineOnly() {
+					note(fc)
+					continue
+				}
+				p.memoSites(callee, many, stack, depth+1, out)
+			} else if cc.IsInvoke() {
+				note(p.ifaceContract(cc.Value.Type(), cc.Method.Name()))
+			}
+		}
+	}
+	for _, an := range fn.AnonFuncs {
+		p.memoSites(an, true, stack, depth+1, out)
+	}
+}
+
+// blocksOnCycles: the blocks of fn that lie on a cycle of its control-flow graph.
+func blocksOnCycles(fn *ssa.Function) map[*ssa.BasicBlock]bool {
+	out := map[*ssa.BasicBlock]bool{}
+	for _, b := range fn.Blocks {
+		seen := map[*ssa.BasicBlock]bool{}
+		stack := append([]*ssa.BasicBlock{}, b.Succs...)
+		for len(stack) > 0 && !out[b] {
+			x := stack[len(stack)-1]
+			stack = stack[:len(stack)-1]
+			if x == b {
+				out[b] = true
+				break
+			}
+			if seen[x] {
+				continue
+			}
+			seen[x] = true
+			stack = append(stack, x.Succs...)
+		}
+	}
+	return out
+}
+
+// memoKeyOf names the ghost sets of a memoising function.
+func memoKeyOf(fc *FuncContract) string {
+	pk := fc.PkgPath
+	if i := strings.LastIndex(pk, "/"); i >= 0 {
+		pk = pk[i+1:]
+	}
+	return sanitize(fmt.Sprintf("%s.%s.%s@%d", pk, fc.Recv, fc.Name, fc.Line))
 }
